@@ -23,6 +23,7 @@ open Cjet Cjet.Daemon
 structure DState where
   cfg : Config := {}
   st : State := {}
+  pending : List Bool := []      -- send results shared by the following operations that say "="
 
 def parseBools (s : String) : List Bool :=
   if s == "-" then [] else s.toList.map (· == '1')
@@ -62,6 +63,15 @@ def applyOp (d : DState) (op : Op) : DState × List String :=
   let (s', os) := step d.cfg d.st op
   ({ d with st := s' }, obsLines os ++ ["."])
 
+def countSends (os : List Obs) : Nat :=
+  (os.filter (fun o => match o with | .send _ _ _ => true | _ => false)).length
+
+/-- run an operation whose send results come from the shared pending list ("=" in the script):
+    every send consumes one value, so the values this operation used are dropped afterwards -/
+def applyShared (d : DState) (mk : List Bool → Op) : DState × List String :=
+  let (s', os) := step d.cfg d.st (mk d.pending)
+  ({ d with st := s', pending := d.pending.drop (countSends os) }, obsLines os ++ ["."])
+
 def stepLine (d : DState) (line : String) : DState × List String :=
   match Cjet.words line with
   | [] => (d, [])
@@ -78,6 +88,7 @@ def stepLine (d : DState) (line : String) : DState × List String :=
       | "version" => { c with version := (Hex.toBytes? b).getD c.version }
       | _ => c) d.cfg
     ({ d with cfg := cfg }, [])
+  | ["oracle", bits] => ({ d with pending := parseBools bits }, [])
   | ["group", g] =>
     match Hex.toBytes? g with
     | some gb => ({ d with cfg := { d.cfg with allGroups := d.cfg.allGroups ++ [gb] } }, [])
@@ -95,19 +106,25 @@ def stepLine (d : DState) (line : String) : DState × List String :=
   | "msg" :: c :: sends :: ixf :: rtf :: rest =>
     match c.toNat? with
     | some cn =>
-      let o : Oracle := { sends := parseBools sends, indexFull := ixf == "1", routeFull := rtf == "1" }
-      if rest == ["!"] then applyOp d (.message cn none o)
+      let mk (j : Option Json) (bs : List Bool) : Op :=
+        .message cn j { sends := bs, indexFull := ixf == "1", routeFull := rtf == "1" }
+      let go (j : Option Json) := if sends == "=" then applyShared d (mk j) else applyOp d (mk j (parseBools sends))
+      if rest == ["!"] then go none
       else match Json.decode rest with
-        | some (j, []) => applyOp d (.message cn (some j) o)
+        | some (j, []) => go (some j)
         | _ => (d, ["bad-op"])
     | none => (d, ["bad-op"])
   | ["disc", c, sends] =>
     match c.toNat? with
-    | some cn => applyOp d (.disconnect cn { sends := parseBools sends })
+    | some cn =>
+      if sends == "=" then applyShared d (fun bs => .disconnect cn { sends := bs })
+      else applyOp d (.disconnect cn { sends := parseBools sends })
     | none => (d, ["bad-op"])
   | ["timer", t, sends] =>
     match t.toNat? with
-    | some tn => applyOp d (.timerFire tn { sends := parseBools sends })
+    | some tn =>
+      if sends == "=" then applyShared d (fun bs => .timerFire tn { sends := bs })
+      else applyOp d (.timerFire tn { sends := parseBools sends })
     | none => (d, ["bad-op"])
   | ["dump"] => (d, dumpState d.st ++ ["."])
   | _ => (d, ["bad-op"])
